@@ -84,13 +84,38 @@ def observe(ctx, case, apk_bytes):
         ('min_sdk', a.get_min_sdk_version), ('target_sdk', a.get_target_sdk_version), ('max_sdk', a.get_max_sdk_version),
         ('effective_target_sdk', a.get_effective_target_sdk_version), ('features', a.get_features),
         ('libraries', a.get_libraries), ('valid', a.is_valid_APK)]
+    def norm(v):
+        return sorted(v) if isinstance(v, (set, frozenset)) else (list(v) if isinstance(v, (list, tuple)) else v)
     for name, fn in queries:
         try:
-            v = fn()
-            obs[name] = sorted(v) if isinstance(v, (set, frozenset)) else (list(v) if isinstance(v, (list, tuple)) else v)
+            obs[name] = norm(fn())
         except Exception:
             ctx.fail('exception:%s' % name, case, traceback.format_exc())
             obs[name] = ('<exception>',)
+    # history: the answers must not depend on which other queries were made before on the same object, nor on the order.
+    # Other read-only queries are made (application label / icon go through the launcher lookup), then every query is
+    # repeated in a rotated order and must answer as it did the first time.
+    for other in (a.get_app_name, a.get_app_icon, a.get_activity_aliases, a.get_intent_filters_probe if hasattr(a, 'get_intent_filters_probe') else None):
+        if other is None:
+            continue
+        try:
+            other()
+        except Exception:
+            ctx.count('history_other_query_raised')
+    k = len(apk_bytes) % len(queries)
+    for name, fn in queries[k:] + queries[:k]:
+        if obs[name] == ('<exception>',):
+            continue
+        try:
+            again = norm(fn())
+        except Exception:
+            ctx.fail('history:exception:%s' % name, case, traceback.format_exc())
+            continue
+        if again != obs[name] and not (isinstance(again, list) and sorted(map(repr, again)) == sorted(map(repr, obs[name]))):
+            ctx.fail('history:%s' % name, dict(case, first=repr(obs[name]), again=repr(again)),
+                     '%s answered %r, and %r when asked again after get_app_name()/get_app_icon() and the other queries'
+                     % (name, obs[name], again))
+    ctx.count('queries_repeated_after_other_queries')
     return obs
 
 
